@@ -11,7 +11,7 @@ RULE = ("each case runs one seeded script twice in fresh worlds: through the git
         "coincide (logical clock), so notes are compared per commit id (files, sessions, line sets, prompt ids) and blame per file; both runs "
         "are also checked against the ledger. non-trivial = at least one note with AI lines compared and a rewrite op ran; distinct = op sequences")
 
-OPS = ["commit", "commit", "partial", "amend", "rebase", "cherry", "reset", "stash", "squash", "switch"]
+OPS = ["commit", "commit", "partial", "amend", "rebase", "cherry", "cherry-abandon", "reset", "stash", "squash", "switch"]
 
 
 def script(sc):
@@ -20,7 +20,7 @@ def script(sc):
     for _ in range(rng.choice([1, 2])):
         sc.do_edit()
     sc.commit_all("hist")
-    for k in range(rng.choice([2, 3, 4])):
+    for k in range(rng.choice([1, 2, 2, 3])):
         import os
         op = rng.choice(os.environ["VERIF_C13_OPS"].split(",") if os.environ.get("VERIF_C13_OPS") else OPS)
         if op == "commit":
@@ -33,6 +33,9 @@ def script(sc):
             ai_only = not sc.profile.get("amend_human_edit", True)
             sc.do_edit(author=rng.choice(sc.sessions) if ai_only else None, kinds=["ins", "rep", "mod"] if ai_only else None)
             sc.op_amend()
+        elif op == "cherry-abandon":
+            sc.commit_all("pre")
+            sc.op_cherry_conflict_abandoned_commit()
         elif op in ("rebase", "cherry", "squash"):
             sc.commit_all("pre")
             {"rebase": sc.op_rebase, "cherry": sc.op_cherry_pick, "squash": sc.op_squash_merge}[op]()
